@@ -42,6 +42,8 @@ const unit = 1 << 20
 var (
 	workers  = flag.Int("workers", 8, "")
 	progress = flag.Bool("progress", false, "")
+	register = flag.Int("register", 0, "run the registration-against-rotation scenario this many times instead of reading schedules")
+	fillers  = flag.Int("fillers", 0, "before a schedule every cache gets this many one-byte entries in a generation of their own (the payload map then crosses its re-creation threshold when a cleanup removes them)")
 	limitU   = flag.Float64("limit", 0.5, "cleaner size limit in units (model Limit 0 <-> 0.5, Limit 1 <-> 1.5)")
 	outMu    sync.Mutex
 	evals    atomic.Int64
@@ -108,6 +110,17 @@ func run(c *Case) {
 		m, w := metrics()
 		caches[i] = cache.NewCache[string](cl, m)
 		waitsOf[i] = w
+	}
+	if *fillers > 0 {
+		// not part of the model: tiny entries (1 byte against units of 1 MiB) in the oldest generation. They change
+		// nothing the invariants speak about, but the first cleanup that retires their generation removes >= 90 %
+		// of the map's entries, so that Cache.recreatePayload really copies the map while loaders may be in flight.
+		for i := 1; i <= maxC; i++ {
+			for k := 0; k < *fillers; k++ {
+				caches[i].Get(uint32(100000+k), func() (string, int) { return "f", 1 })
+			}
+		}
+		cl.Rotate()
 	}
 	produced := map[[2]int]map[string]bool{}
 	var pmu sync.Mutex
@@ -353,8 +366,108 @@ func run(c *Case) {
 	}
 }
 
+// ---------------------------------------------------------------- registration against rotation (CacheRegister.tla)
+
+// gatedBucket stands between the cleaner and a real cache: the cleaner's first SetGeneration call on it (the one
+// AddBucket makes) is held until the driver lets it go, so that a rotation can be attempted in the middle of the
+// registration. Everything is passed on to the real cache.
+type gatedBucket struct {
+	c       *cache.Cache[string]
+	entered chan struct{}
+	gate    chan struct{}
+	first   atomic.Bool
+}
+
+func (g *gatedBucket) SetGeneration(gen *cache.Generation) {
+	if g.first.CompareAndSwap(false, true) {
+		g.entered <- struct{}{}
+		<-g.gate
+	}
+	g.c.SetGeneration(gen)
+}
+func (g *gatedBucket) Cleanup() uint64             { return g.c.Cleanup() }
+func (g *gatedBucket) Released() bool              { return g.c.Released() }
+func (g *gatedBucket) Reset(gen *cache.Generation) { g.c.Reset(gen) }
+
+// registerScenario: CacheRegister.tla says a registration is one step (Register): a rotation comes before it or
+// after it. The driver starts a registration, attempts a rotation while the cleaner is inside AddBucket, lets both
+// finish and then loads, rotates, cleans and loads again; at every quiescent point the cleaner must account what
+// the live entries hold (AccountedEqualsLive), and after the cleaning pass the size must be under the limit.
+func registerScenario(n int) int {
+	bad := 0
+	fail := func(i int, what string) {
+		bad++
+		emit(map[string]any{"n": -1 - i, "what": "registration of a cache during a rotation: " + what, "scenario": "register"})
+	}
+	for i := 0; i < n; i++ {
+		limit := uint64(1.5 * unit)
+		cl := cache.NewCleaner(limit, nil)
+		m0, _ := metrics()
+		base := cache.NewCache[string](cl, m0)
+		base.Get(1, func() (string, int) { return "b", unit }) // the last generation is big enough to be rotated
+		m1, _ := metrics()
+		inner := cache.NewCache[string](nil, m1)
+		gb := &gatedBucket{c: inner, entered: make(chan struct{}, 1), gate: make(chan struct{})}
+		regDone := make(chan struct{})
+		go func() { cl.AddBucket(gb); close(regDone) }()
+		select {
+		case <-gb.entered:
+		case <-time.After(60 * time.Second):
+			emit(map[string]any{"infra": "AddBucket never called SetGeneration"})
+			os.Exit(3)
+		}
+		rotDone := make(chan struct{})
+		go func() { cl.Rotate(); close(rotDone) }()
+		// the rotation either waits for the cleaner's mutex (registration is atomic) or runs through
+		select {
+		case <-rotDone:
+		case <-time.After(time.Duration(20+i%3*40) * time.Millisecond):
+		}
+		close(gb.gate)
+		<-regDone
+		<-rotDone
+		check := func(step string, afterCleanup bool) bool {
+			_, l0 := base.VerifLive()
+			_, l1 := inner.VerifLive()
+			if acc := cl.VerifSize(); acc != l0+l1 {
+				fail(i, fmt.Sprintf("%s: cleaner accounts %d bytes, live entries hold %d bytes", step, acc, l0+l1))
+				return false
+			} else if afterCleanup && acc > limit {
+				fail(i, fmt.Sprintf("%s: accounted size %d is over the limit %d after a cleaning pass", step, acc, limit))
+				return false
+			}
+			return true
+		}
+		if !check("after registration", false) {
+			continue
+		}
+		inner.Get(7, func() (string, int) { return "x", unit })
+		if !check("after the first load into the new cache", false) {
+			continue
+		}
+		cl.Rotate()
+		cl.Cleanup(&cache.CleanStat{})
+		if !check("after rotate + cleanup", true) {
+			continue
+		}
+		inner.Get(8, func() (string, int) { return "y", unit })
+		if !check("after a load following the cleanup", false) {
+			continue
+		}
+		cl.Rotate()
+		cl.Cleanup(&cache.CleanStat{})
+		check("after the second rotate + cleanup", true)
+	}
+	return bad
+}
+
 func main() {
 	flag.Parse()
+	if *register > 0 {
+		registerScenario(*register)
+		emit(map[string]any{"summary": true, "cases": *register, "evals": *register * 5, "nontrivial": *register, "corpora": 0})
+		return
+	}
 	sc := bufio.NewScanner(os.Stdin)
 	sc.Buffer(make([]byte, 1<<20), 1<<26)
 	w := *workers
